@@ -143,8 +143,16 @@ def impl(case):
     back = gtio.snapshot(r)
     # the streaming iterator yields the same records
     it = getattr(D, "GenotypesPLINK" if ext == ".pgen" else case["reader"])(path, log=SD.silent_log())
-    recs = [[[int(x) for x in row] for row in np.asarray(rec.data)] for rec in it.__iter__()]
+    kept = list(it.__iter__())  # collected first, looked at afterwards: a record is the caller's to keep
+    recs = [[[int(x) for x in row] for row in np.asarray(rec.data)] for rec in kept]
     obs = {"disk": disk, "read": back, "iter_rows": len(recs)}
+    bulk = np.asarray(r.data)
+    if recs and bulk.ndim == 3 and bulk.shape[1] == len(recs):
+        for j, rec in enumerate(recs):
+            col = [[int(x) for x in row] for row in bulk[:, j, :]]
+            if [row[: len(col[0])] for row in rec] != [row[: len(rec[0])] for row in col] if rec and col else rec != col:
+                obs["iter_differs"] = f"record {j} of the streaming iterator (records collected in a list) holds {rec}; the bulk read holds {col} for that variant"
+                break
     if ext != ".pgen" and not case.get("stale_index") and C.plumb(case, "stream", 12) == 0:
         # the written VCF / BCF piped into another process that reads /dev/stdin (a stream has no index and cannot be read
         # twice): the matrix that comes back is the same.  A process of its own with a time limit: htslib blocks inside C when
@@ -201,7 +209,7 @@ def equal(a, b):
     ra, rb = C.canon(a["read"]), C.canon(b["read"])
     if len(rb["variants"]) == 0:
         # an empty matrix round-trips to an empty matrix: haptools drops the sample rows too (shape (0,0,0))
-        return ra["variants"] == [] and (ra["data"] in ([], [[] for _ in ra["samples"]]))
+        return ra["variants"] == [] and (ra["data"] in ([], [[] for _ in ra["samples"]])) and ra["samples"] == rb["samples"]
     # the phase bit of a non-heterozygous (homozygous or missing) call is not information: normalised on both sides
     for r in (ra, rb):
         if isinstance(r["data"], list):
@@ -221,6 +229,8 @@ def equiv_pgen(w, r):
 def oracle(case, obs):
     if "error" in obs:
         return f"write/read raised {obs}"
+    if obs.get("iter_differs"):
+        return obs["iter_differs"]
     if obs.get("stream_differs"):
         return f"the written {case['fmt']} file piped into a process that reads /dev/stdin does not come back as the same file read by name does: {obs['stream_differs']}"
     pg = case["fmt"].startswith(".pgen")
@@ -230,6 +240,8 @@ def oracle(case, obs):
         if len(case["variants"]) == 0:
             if o["variants"] != [] or any(len(r) for r in (o["data"] or [])):
                 return f"{name}: an empty matrix did not round-trip to an empty matrix: {o}"
+            if name == "read" and o["samples"] != case["samples"]:
+                return f"read: the samples of an empty matrix came back as {o['samples']}, written {case['samples']}"
             continue
         if o["samples"] != case["samples"]:
             return f"{name}: samples {o['samples']}"
